@@ -88,4 +88,54 @@ def run (m : Machine Tok PS Out) (s : Sys PS Out) (sched : List Nat) : Sys PS Ou
 /-- what is observable of a thread: how far it is and with which automaton state / outcome -/
 def Thread.core (t : Thread PS Out) : List Char × Phase PS Out := (t.text, t.phase)
 
+/-! ## state parked on the engine-wide rules objects
+
+ply's `clone()` gives a parse its own `lexdata`/`lexpos`, but the clone still calls the rule functions of the ONE
+lexer-rules object of the engine (and the parser the ONE parser-rules object); `engine.copy()` shares them too.
+`MachineR` is a tokeniser whose token fetch may read and write such a piece of engine-wide state `R` (a look-behind
+flag, a mode switch, a cache ...), and whose `input()` may reset it.  Every parse has its own lexer here. -/
+
+structure MachineR (Tok PS Out R : Type) where
+  nextTok : R → List Char → Nat → (Tok × Nat) × R
+  onInput : R → R
+  init    : PS
+  feed    : PS → Tok → PS ⊕ Out
+
+structure SysR (PS Out R : Type) where
+  rules   : R
+  threads : List (Thread PS Out)
+
+variable {R : Type}
+
+/-- one step of a parse against the rules state as it is now -/
+def stepOnR (m : MachineR Tok PS Out R) (r : R) (t : Thread PS Out) : R × Thread PS Out :=
+  match t.phase with
+  | .notStarted => (m.onInput r, { t with own := { data := t.text, pos := 0 }, phase := .running m.init })
+  | .running ps =>
+      let res := m.nextTok r t.own.data t.own.pos
+      let own' : LexSt := { t.own with pos := res.1.2 }
+      match m.feed ps res.1.1 with
+      | .inl ps' => (res.2, { t with own := own', phase := .running ps' })
+      | .inr out => (res.2, { t with own := own', phase := .done out })
+  | .done _ => (r, t)
+
+def stepR (m : MachineR Tok PS Out R) (s : SysR PS Out R) (i : Nat) : SysR PS Out R :=
+  match s.threads[i]? with
+  | none => s
+  | some t => { rules := (stepOnR m s.rules t).1, threads := s.threads.set i (stepOnR m s.rules t).2 }
+
+def runR (m : MachineR Tok PS Out R) (s : SysR PS Out R) (sched : List Nat) : SysR PS Out R :=
+  sched.foldl (stepR m) s
+
+/-- a parse alone, with a rules state nobody else touches -/
+def soloIterR (m : MachineR Tok PS Out R) : Nat → R × Thread PS Out → R × Thread PS Out
+  | 0, x => x
+  | n + 1, x => soloIterR m n (stepOnR m x.1 x.2)
+
+/-- the tokeniser one gets by freezing the rules state at `r0` -/
+def MachineR.frozen (m : MachineR Tok PS Out R) (r0 : R) : Machine Tok PS Out where
+  nextTok := fun d p => (m.nextTok r0 d p).1
+  init := m.init
+  feed := m.feed
+
 end Yaql.ParseSched
